@@ -51,8 +51,9 @@ type Proc struct {
 }
 
 type Edge struct {
-	From string `json:"from"`
-	To   string `json:"to"`
+	From  string `json:"from"`
+	To    string `json:"to"`
+	UseTo bool   `json:"useto"` // connect with OutPort.To(in-port) instead of InPort.From(out-port)
 }
 
 type Feed struct {
@@ -283,7 +284,11 @@ func main() {
 	for _, e := range spec.Edges {
 		fp, fport := split2(e.From)
 		tp, tport := split2(e.To)
-		owners[tp].InPort(tport).From(owners[fp].OutPort(fport))
+		if e.UseTo {
+			owners[fp].OutPort(fport).To(owners[tp].InPort(tport))
+		} else {
+			owners[tp].InPort(tport).From(owners[fp].OutPort(fport))
+		}
 	}
 	for _, e := range spec.PEdges {
 		fp, fport := split2(e.From)
